@@ -20,6 +20,7 @@ Games ==
       [] Family = "samerow" -> DescribeAll("samerow", Pick(K, SameRowGames))
       [] Family = "loopdiag" -> DescribeAll("loopdiag", Pick(K, LoopDiagGames))
       [] Family = "slowrew" -> DescribeAll("slowrew", Pick(K, SlowRewGames))
+      [] Family = "gap5" -> DescribeAll("gap5", Gap5Games)
       [] Family = "zerow" -> DescribeAll("zerow", ZeroWGames)
       [] Family = "slow" -> DescribeAll("slow", Pick(K, SlowGames))
       [] Family = "bigrew" -> DescribeAll("bigrew", Pick(K, BigRewGames))
